@@ -10,8 +10,8 @@
 //	 "reqs":[{"m":"GET","h":["a","com"],"p":["x","y"]},...]}
 //
 // For every order the REAL config.BuildEndpointPolicyTree is called with the declarations in
-// that order (declaration i carries one enabled remedy "d<i>" of remedy type t and one enabled
-// diagnosis "g<i>"); for every request the REAL dispatcher selection (runner.getRemedies /
+// that order (declaration i carries one remedy "d<i>" of remedy type t and one diagnosis "g<i>",
+// enabled / disabled / absent according to "pl"); for every request the REAL dispatcher selection (runner.getRemedies /
 // getDiagnoses through export_verif.go) and EndpointPolicyTree.Lookup are evaluated.
 // output, one line per group:
 //
@@ -38,10 +38,11 @@ import (
 )
 
 type Decl struct {
-	M string   `json:"m"`
-	H []string `json:"h"`
-	P []string `json:"p"`
-	T int      `json:"t"`
+	M  string   `json:"m"`
+	H  []string `json:"h"`
+	P  []string `json:"p"`
+	T  int      `json:"t"`
+	PL string   `json:"pl"` // plugins: "" / "on" both enabled, "off" both disabled, "none" no plugin, "donly" remedy disabled
 }
 
 type Req struct {
@@ -130,14 +131,25 @@ func pairs(m map[string]string) [][2]string {
 func runGroup(g Group) GroupOut {
 	eps := make([]sharedConfig.EndpointConfig, len(g.Decls))
 	for i, d := range g.Decls {
-		eps[i] = sharedConfig.EndpointConfig{
-			URL:      render(d.H, d.P),
-			Method:   d.M,
-			Remedies: []sharedConfig.Remedy{remedyOfType(fmt.Sprintf("d%d", i+1), d.T)},
-			Diagnosis: []sharedConfig.Diagnosis{{
-				Enabled: true, Name: fmt.Sprintf("g%d", i+1), Export: "file",
-				Config: sharedConfig.DiagnosisConfig{Void: &sharedConfig.VoidConfig{}},
-			}},
+		remedy := remedyOfType(fmt.Sprintf("d%d", i+1), d.T)
+		diagnosis := sharedConfig.Diagnosis{
+			Enabled: true, Name: fmt.Sprintf("g%d", i+1), Export: "file",
+			Config: sharedConfig.DiagnosisConfig{Void: &sharedConfig.VoidConfig{}},
+		}
+		switch d.PL {
+		case "", "on":
+		case "off":
+			remedy.Enabled, diagnosis.Enabled = false, false
+		case "donly":
+			remedy.Enabled = false
+		case "none":
+		default:
+			vh.Die("unknown plugin mode %q", d.PL)
+		}
+		eps[i] = sharedConfig.EndpointConfig{URL: render(d.H, d.P), Method: d.M}
+		if d.PL != "none" {
+			eps[i].Remedies = []sharedConfig.Remedy{remedy}
+			eps[i].Diagnosis = []sharedConfig.Diagnosis{diagnosis}
 		}
 	}
 	global := &sharedConfig.Global{}
